@@ -611,13 +611,15 @@ func c18GenPipe(r *Rng, variant string, mode int) *C18Input {
 	// mode 0: idle target, deliveries oldest-first; 1: idle target, any
 	// order; 2: busy target (holds, held transitions), oldest-first;
 	// 3: everything
+	// 4: busy target, every call delivered right behind its source call
 	busy := mode >= 2
 	reorder := mode == 1 || mode == 3
+	eager := mode == 4
 	burst := r.Range(1, 20)
 	if busy {
 		np := r.Range(1, 12)
 		for i := 0; i < np; i++ {
-			in.Parks = append(in.Parks, r.Chance(35))
+			in.Parks = append(in.Parks, r.Chance(map[bool]int{true: 50, false: 35}[eager]))
 		}
 	}
 	inflight := 0
@@ -626,9 +628,12 @@ func c18GenPipe(r *Rng, variant string, mode int) *C18Input {
 	for issued < burst {
 		x := r.Intn(100)
 		switch {
+		case eager && !flat && inflight > 0 && x < 85:
+			in.Steps = append(in.Steps, C18Step{Op: "del"})
+			inflight--
 		case busy && x < 10:
 			in.Steps = append(in.Steps, C18Step{Op: "hold"})
-		case busy && x < 30:
+		case busy && x < 30 && !(eager && x < 22):
 			in.Steps = append(in.Steps, C18Step{Op: "rel"})
 		case !flat && x < 55 && inflight > 0:
 			i := 0
@@ -790,7 +795,7 @@ func runC18(c *Ctx) error {
 	nPipe := c.N(1400, 40000)
 	for i := 0; i < nPipe; i++ {
 		v := variants[r.Intn(len(variants))]
-		emit("generated", c18GenPipe(r, v, r.Intn(4)))
+		emit("generated", c18GenPipe(r, v, r.Intn(5)))
 	}
 	nAny := c.N(300, 8000)
 	for i := 0; i < nAny; i++ {
